@@ -122,20 +122,20 @@ Close Scope string_scope.
 Require Import SQV.Model.ExprTablesInst SQV.Spec.ScriptSafe SQV.Proofs.ScriptSafeProofs SQV.Proofs.ExprSafeProofs
   SQV.Proofs.TablesLexProofs.
 Theorem C01_local_safety_gives_the_premise :
-  forall (ftext : bool -> N -> str) b sc, sc_ok ftext b sc = true -> params_sep ftext b sc = true.
+  forall (ftext : bool -> N -> str) b sc, sc_ok ftext b false sc = true -> params_sep ftext b sc = true.
 Proof. exact sc_ok_params_sep. Qed.
 Print Assumptions C01_local_safety_gives_the_premise.
 
 Theorem C01_rendered_expression_is_separable :
   forall (ftext : bool -> N -> str) Q (rq : Q -> script) is_alpha b T (e : expr Q) common,
-  spellings_lex ftext b T -> (forall q, sc_ok ftext b (rq q) = true) -> expr_plain ftext Q b e = true ->
-  sc_ok ftext b (rexpr Q rq is_alpha b T common e) = true /\
+  spellings_lex b T -> (forall q, sc_ok ftext b false (rq q) = true) -> expr_plain ftext Q b false e = true ->
+  sc_ok ftext b false (rexpr Q rq is_alpha b T common e) = true /\
   params_sep ftext b (rexpr Q rq is_alpha b T common e) = true.
 Proof. exact rendered_expression_is_separable. Qed.
 Print Assumptions C01_rendered_expression_is_separable.
 
 Theorem C01_generated_tables_spell_lexably :
-  forall (ftext : bool -> N -> str) more b, spellings_lex ftext b (tables_of more b).
+  forall more b, spellings_lex b (tables_of more b).
 Proof. exact generated_tables_spell_lexably. Qed.
 Print Assumptions C01_generated_tables_spell_lexably.
 
